@@ -113,6 +113,18 @@ func cmdDump(args []string) {
 			rs = append(rs, r)
 		}
 	}
+	if only := os.Getenv("GOVC_ONLY"); only != "" {
+		// development aid: solve only the obligations whose name contains the text
+		for _, r := range rs {
+			var keep []*Obligation
+			for _, o := range r.Obls {
+				if strings.Contains(o.Name, only) {
+					keep = append(keep, o)
+				}
+			}
+			r.Obls = keep
+		}
+	}
 	discharge(rs, 8, 6*time.Second, time.Duration(*tmo)*time.Second)
 	for _, r := range rs {
 		fmt.Printf("== %s (%.2fs gen) err=%q\n", r.Name, r.Secs, r.Err)
